@@ -1138,6 +1138,60 @@ def stage_site(impl, d: Path, wd: Path, case):
 
 
 # ---------------------------------------------------------------------------------------------
+# hunt corpus (harness/c18_hunt.py): fixed end-to-end witnesses, each in its own file tree
+
+def hunt_batch(impl, wd: Path):
+    """run every rule of every hunt item inside the item's tree, execute before/after in fresh module state,
+    compare stdout + exception.  Returns failure records like oracle_batch (with `hunt` = item id)."""
+    from . import c18_hunt
+    base = wd / "trees"
+    jobs, meta = [], []
+    for k, (hid, files, cpath, src, rules, opts) in enumerate(c18_hunt.ITEMS):
+        d = base / f"h{k}"
+        d.mkdir(parents=True, exist_ok=True)
+        for rel, text in files.items():
+            p = d / rel
+            p.parent.mkdir(parents=True, exist_ok=True)
+            p.write_text(text)
+        impl.enter(d)
+        cl = []
+        tree = {"mods": [{"name": rel[:-3].replace("/", "."), "init": rel.endswith("__init__.py"), "all": None, "body": [],
+                          "raw": text} for rel, text in files.items()]}
+        for rule in rules:
+            out = impl.run(rule, src)
+            rec = {"rule": rule, "tree": tree, "src": src, "out": out if isinstance(out, str) else None, "names": [],
+                   "dir": str(d), "hunt": hid}
+            if isinstance(out, tuple):
+                meta.append((k, None, dict(rec, crash=out[1])))
+                continue
+            if out == src:
+                continue
+            try:
+                ast.parse(out)
+            except SyntaxError:
+                meta.append((k, None, dict(rec, crash="output is not valid Python")))
+                continue
+            cl.append({"id": len(meta), "before": opts.get("ref", src), "after": out, "names": [], "fresh": True,
+                       "package": opts.get("pkg")})
+            meta.append((k, len(cl) - 1, rec))
+        jobs.append({"dir": str(d), "modules": [], "pool": [], "clients": cl})
+    os.chdir(common.VERIF)
+    res = run_worker(jobs, base)
+    fails, n_exec = [], 0
+    for k, ci, rec in meta:
+        if ci is None:
+            fails.append(dict(rec, diff=["<crash>"]))
+            continue
+        r = res[k]["clients"][ci]
+        n_exec += 1
+        if r["before"]["exc"]:
+            continue
+        if r["diff"]:
+            fails.append(dict(rec, diff=r["diff"], before=r["before"], after=r["after"]))
+    return fails, n_exec
+
+
+# ---------------------------------------------------------------------------------------------
 # the check
 
 SWEEP_SEED = 1234          # the deterministic sweep never depends on VERIF_SEED
